@@ -4,8 +4,6 @@ import (
 	"bytes"
 	"fmt"
 	"math/big"
-	"os"
-	"path/filepath"
 	"sort"
 	"strings"
 
@@ -539,41 +537,3 @@ Local Open Scope string_scope.
 `
 
 var _ = bytes.Compare
-
-// writeValShards is writeShards for the validator streams, except that a case file prints only
-// its first two mismatches: with a broken tree most cases mismatch and the full list does not
-// fit the pipe the checker reads coqc through.
-func writeValShards(dir, prop string, cases []string, n int, rep *Report) {
-	if len(cases)/250 > n {
-		n = len(cases) / 250
-	}
-	if n > len(cases) {
-		n = len(cases)
-	}
-	if n < 1 {
-		n = 1
-	}
-	for k := 0; k < n; k++ {
-		var body []string
-		for i := k; i < len(cases); i += n {
-			body = append(body, cases[i])
-		}
-		name := fmt.Sprintf("cases_%s_%03d.v", prop, k)
-		f, err := os.Create(filepath.Join(dir, name))
-		if err != nil {
-			panic(err)
-		}
-		fmt.Fprint(f, valCaseHeader)
-		fmt.Fprint(f, internDefs(strings.Join(body, "\n")))
-		fmt.Fprint(f, "Definition cases : list (N * valcase * list ov) := [\n")
-		for i, c := range body {
-			if i > 0 {
-				fmt.Fprint(f, ";\n")
-			}
-			fmt.Fprint(f, c)
-		}
-		fmt.Fprint(f, "].\nDefinition M := Eval vm_compute in firstn 2 (check_all run_valcase cases).\nPrint M.\n")
-		f.Close()
-		rep.Shards = append(rep.Shards, name)
-	}
-}
